@@ -42,6 +42,9 @@ type state struct {
 	fromL      int
 	accepted   map[int]bool
 	ran        map[int]int
+	hpIssue    map[int][2]int // high-priority task -> (issuing producer, its issue index)
+	hpCount    map[int]int    // producer -> number of high-priority requests issued so far
+	hpLast     map[int][2]int // producer -> (highest issue index executed so far, that task)
 	loopExited bool
 	loopBlock  bool
 	stop       chan struct{}
@@ -59,6 +62,14 @@ func exec(param any) error {
 	}
 	if !st.accepted[v] {
 		util.Fail(fmt.Sprintf("task %d executed but never submitted", v))
+	}
+	// C03: high-priority requests issued by one goroutine are carried out in issue order
+	if is, ok := st.hpIssue[v]; ok {
+		if last, seen := st.hpLast[is[0]]; seen && last[0] > is[1] {
+			util.Fail(fmt.Sprintf("C03: high-priority requests of producer %d ran out of issue order: task %d (issued as its #%d) ran after task %d (its #%d)", is[0], v, is[1], last[1], last[0]))
+		} else {
+			st.hpLast[is[0]] = [2]int{is[1], v}
+		}
 	}
 	if v == 0 {
 		return errorx.ErrEngineShutdown
@@ -101,14 +112,14 @@ func teardown() {
 		_ = st.p.Trigger(queue.HighPriority, func(any) error { return errorx.ErrEngineShutdown }, nil)
 		select {
 		case <-st.stop:
-		case <-time.After(5 * time.Second):
+		case <-time.After(300 * time.Millisecond):
 		}
 	}
 	done := make(chan struct{})
 	go func(s *state) { s.wg.Wait(); close(done) }(st)
 	select {
 	case <-done:
-	case <-time.After(5 * time.Second):
+	case <-time.After(300 * time.Millisecond):
 	}
 	_ = st.p.Close()
 	// drain stale events
@@ -129,7 +140,7 @@ func newState(nprod int, threshold int32) string {
 	if err != nil {
 		return "bad-open:" + err.Error()
 	}
-	st = &state{p: p, accepted: map[int]bool{}, ran: map[int]int{}, stop: make(chan struct{})}
+	st = &state{p: p, accepted: map[int]bool{}, ran: map[int]int{}, hpIssue: map[int][2]int{}, hpCount: map[int]int{}, hpLast: map[int][2]int{}, stop: make(chan struct{})}
 	p.VerifSetThreshold(threshold)
 	st.uq, st.lq = p.VerifQueues()
 	st.ud, st.ld = queue.VerifDummy(st.uq), queue.VerifDummy(st.lq)
@@ -213,6 +224,10 @@ func step(ws []string) string {
 			return "bad-op"
 		}
 		st.accepted[task] = true
+		if ws[3] != "1" && task != 0 {
+			st.hpCount[tid]++
+			st.hpIssue[task] = [2]int{tid, st.hpCount[tid]}
+		}
 		w.busy = true
 		w.ops <- trig{task, ws[3] == "1"}
 		if ev := waitEvent(tid); ev.Kind != "parked" {
